@@ -197,7 +197,7 @@ Definition fdec (c : ascii) : string := if Ascii.eqb c " " then "+" else String 
 Lemma unescape_frag_esc_byte c r :
   unescape EFragment (esc_byte EQuery c ++ r)%string
   = option_map (String.append (fdec c)) (unescape EFragment r).
-Proof. all_bytes c; cbn; destruct (unescape EFragment r); reflexivity. Qed.
+Proof. all_bytes c; reflexivity. Qed.
 
 Definition frag_ok (s : string) : Prop :=
   forall r, unescape EFragment r <> None -> unescape EFragment (s ++ r)%string <> None.
